@@ -9,7 +9,7 @@ SPEC = {
              'every run, each ready part is offered on a deep copy of the system to every downstream '
              'neighbour with the real give_part; logical budgets bound events per run and per instant; a case '
              'is one model+script+tie policy; non-trivial = at least one ready part was genuinely refused on a '
-             'copy and later left its holder (a real block -> wake-up cycle)'),
+             'copy and later left its holder (a real block -> wake-up cycle); also: a one-decimal (cycle, delay) sweep through a delay buffer, refused set_upstream() calls, late-created group paths, callbacks that fail once under a catching caller, long-history models'),
     'floors': {'quick': {'refused_offers': 2000, 'wakeups': 300, 'instants_probed': 2000},
                'thorough': {'refused_offers': 40000, 'wakeups': 6000, 'instants_probed': 40000}},
     'assumptions': ['gate predicates are pure functions of the part (library warning)',
